@@ -54,4 +54,9 @@ impl<T> core::convert::From<Tx<T>> for RpcReplyPort<T> { #[verifier::external_bo
 impl<T> core::convert::From<(Tx<T>, Duration)> for RpcReplyPort<T> { #[verifier::external_body] fn from(t: (Tx<T>, Duration)) -> Self { unimplemented!() } }
 pub assume_specification<T: Clone> [<[T]>::to_vec] (s: &[T]) -> (r: Vec<T>)
     ensures r@ == s@;
+/// R35: one arm test of `match tag.as_str() { "Lit" => .. }` (A-std: string equality)
+#[verifier::external_body]
+pub fn vx_str_is(s: &String, lit: &'static str) -> (r: bool)
+    ensures r == (s@ == lit@)
+{ unimplemented!() }
 } // verus!
